@@ -76,9 +76,12 @@ def build_coq():
 
 def build_model():
     """Extract the executable model to OCaml and build the driver (cached on source hash)."""
+    ok, out = build_coq()
+    if not ok:
+        raise BuildError("the Coq development does not build:\n" + out[-3000:])
     with Lock("coq"):
         ok, out = True, ""
-        srcs = sorted(f for f in os.listdir(COQ) if f.endswith(".v")) + ["../ocaml/driver.ml"]
+        srcs = sorted(f for f in os.listdir(COQ) if f.endswith(".v")) + ["Gen/Tables.v", "../ocaml/driver.ml"]
         h = hashlib.sha256()
         for f in srcs:
             h.update(open(os.path.join(COQ, f), "rb").read())
